@@ -99,8 +99,38 @@ func Check(c Cfg, s Snap, final bool) (class, detail string) {
 	return CheckDelivered(c, s, final)
 }
 
-// CheckDo is filled in with the Do combinator.
-func CheckDo(c Cfg, s Snap, final bool) (class, detail string) { return "", "" }
+// CheckDo judges what Do returned (mirrors the End checks of ConcTrace.tla).
+func CheckDo(c Cfg, s Snap, final bool) (class, detail string) {
+	if !s.Returned {
+		if final {
+			return "Do did not return", "every goroutine finished but the caller recorded no result"
+		}
+		return "", ""
+	}
+	for i, f := range s.AtReturn {
+		if !f {
+			return "Do returned before every function had returned", fmt.Sprintf("function %d had not returned; finished=%v", i, s.AtReturn)
+		}
+	}
+	for i, v := range s.Results {
+		if v != 100+i {
+			return "Do: a value is not in its position", fmt.Sprintf("result %d is %d, function %d returned %d; results=%v", i, v, i, 100+i, s.Results)
+		}
+	}
+	anyFail, isOne := false, false
+	for _, f := range c.Fail {
+		if f != 0 {
+			anyFail = true
+			if f == s.ErrCode {
+				isOne = true
+			}
+		}
+	}
+	if anyFail != (s.ErrCode != 0) || (s.ErrCode != 0 && !isOne) {
+		return "Do: error is not nil exactly when a function failed, or is none of the returned errors", fmt.Sprintf("returned error code %d, functions returned %v", s.ErrCode, c.Fail)
+	}
+	return "", ""
+}
 
 // IO gives the canonical ids of the combinator's input and output channels
 // (mirrors Inputs/Outputs of spec/conc/Conc.tla).
